@@ -71,23 +71,16 @@ func (w *MarkdownWriter) Write() ([]byte, error) {
 		w.writeMetadata()
 	}
 
-	// 遍历文档段落
+	// 按文档主体中的顺序遍历段落和表格（先输出全部段落再输出全部表格会打乱阅读顺序）
 	if w.doc.Body != nil {
-		for _, para := range w.doc.Body.GetParagraphs() {
-			err := w.writeParagraph(para)
-			if err != nil {
-				if w.opts.ErrorCallback != nil {
-					w.opts.ErrorCallback(err)
-				}
-				if !w.opts.IgnoreErrors {
-					return nil, err
-				}
+		for _, element := range w.doc.Body.Elements {
+			var err error
+			switch elem := element.(type) {
+			case *document.Paragraph:
+				err = w.writeParagraph(elem)
+			case *document.Table:
+				err = w.writeTable(elem)
 			}
-		}
-
-		// 处理表格
-		for _, table := range w.doc.Body.GetTables() {
-			err := w.writeTable(table)
 			if err != nil {
 				if w.opts.ErrorCallback != nil {
 					w.opts.ErrorCallback(err)
